@@ -3,7 +3,6 @@ package main
 import (
 	"context"
 	"fmt"
-	"os"
 	"time"
 
 	openfgav1 "github.com/openfga/api/proto/openfga/v1"
@@ -13,82 +12,48 @@ import (
 	"github.com/openfga/openfga/pkg/storage/memory"
 )
 
-func depth(u *openfgav1.Userset) (int, int) {
-	d, n := 0, 1
-	var stack []*openfgav1.Userset
-	type fr struct {
-		u *openfgav1.Userset
-		d int
+func this() *openfgav1.Userset {
+	return &openfgav1.Userset{Userset: &openfgav1.Userset_This{This: &openfgav1.DirectUserset{}}}
+}
+
+func chain(depth int) *openfgav1.Userset {
+	u := this()
+	for i := 0; i < depth; i++ {
+		u = &openfgav1.Userset{Userset: &openfgav1.Userset_Union{Union: &openfgav1.Usersets{Child: []*openfgav1.Userset{this(), u}}}}
 	}
-	st := []fr{{u, 1}}
-	_ = stack
-	n = 0
-	for len(st) > 0 {
-		f := st[len(st)-1]
-		st = st[:len(st)-1]
-		if f.u == nil {
-			continue
-		}
-		n++
-		if f.d > d {
-			d = f.d
-		}
-		switch t := f.u.GetUserset().(type) {
-		case *openfgav1.Userset_Union:
-			for _, k := range t.Union.GetChild() {
-				st = append(st, fr{k, f.d + 1})
-			}
-		case *openfgav1.Userset_Intersection:
-			for _, k := range t.Intersection.GetChild() {
-				st = append(st, fr{k, f.d + 1})
-			}
-		case *openfgav1.Userset_Difference:
-			st = append(st, fr{t.Difference.GetBase(), f.d + 1}, fr{t.Difference.GetSubtract(), f.d + 1})
-		}
-	}
-	return d, n
+	return u
 }
 
 func main() {
-	b, _ := os.ReadFile(os.Args[1])
-	req := &openfgav1.WriteAuthorizationModelRequest{}
-	if err := (proto.UnmarshalOptions{RecursionLimit: 10000000}).Unmarshal(b, req); err != nil {
-		panic(err)
-	}
-	fmt.Println("bytes", len(b), "types", len(req.GetTypeDefinitions()), "conds", len(req.GetConditions()), "schema", req.GetSchemaVersion())
-	for _, td := range req.GetTypeDefinitions() {
-		for rn, rw := range td.GetRelations() {
-			if d, n := depth(rw); d > 3 {
-				fmt.Printf("  %s#%s rewrite depth %d nodes %d restrictions %v\n", td.GetType(), rn, d, n, td.GetMetadata().GetRelations()[rn].GetDirectlyRelatedUserTypes())
-			}
-		}
-		fmt.Printf("  type %q has %d relations\n", td.GetType(), len(td.GetRelations()))
-	}
-	for n, c := range req.GetConditions() {
-		e := c.GetExpression()
-		if len(e) > 60 {
-			e = e[:60] + "…"
-		}
-		fmt.Printf("  cond %s: %q\n", n, e)
-	}
-	if len(os.Args) > 2 {
-		return
-	}
 	s := server.MustNewServerWithOpts(server.WithDatastore(memory.New()))
 	ctx := context.Background()
-	cs, _ := s.CreateStore(ctx, &openfgav1.CreateStoreRequest{Name: "dbg-store"})
-	req.StoreId = cs.GetId()
-	start := time.Now()
-	done := make(chan error, 1)
-	go func() { _, err := s.WriteAuthorizationModel(ctx, req); done <- err }()
-	select {
-	case err := <-done:
-		msg := fmt.Sprint(err)
-		if len(msg) > 200 {
-			msg = msg[:200]
+	for _, cfg := range [][2]int{{30, 0}, {300, 0}, {1000, 0}, {30, 1000}, {300, 1000}, {300, 3000}, {1000, 3000}} {
+		n, d := cfg[0], cfg[1]
+		rels := map[string]*openfgav1.Userset{}
+		meta := map[string]*openfgav1.RelationMetadata{}
+		for i := 0; i < n; i++ {
+			rels[fmt.Sprintf("q%d", i)] = &openfgav1.Userset{Userset: &openfgav1.Userset_ComputedUserset{ComputedUserset: &openfgav1.ObjectRelation{Relation: fmt.Sprintf("q%d", i+1)}}}
 		}
-		fmt.Println("returned after", time.Since(start).Round(time.Millisecond), msg)
-	case <-time.After(200 * time.Second):
-		fmt.Println("NOT returned after 200s")
+		rels[fmt.Sprintf("q%d", n)] = chain(d)
+		meta[fmt.Sprintf("q%d", n)] = &openfgav1.RelationMetadata{DirectlyRelatedUserTypes: []*openfgav1.RelationReference{{Type: "user"}}}
+		cs, _ := s.CreateStore(ctx, &openfgav1.CreateStoreRequest{Name: "dbg-store"})
+		req := &openfgav1.WriteAuthorizationModelRequest{StoreId: cs.GetId(), SchemaVersion: "1.1", TypeDefinitions: []*openfgav1.TypeDefinition{{Type: "user"}, {Type: "doc",
+			Relations: rels, Metadata: &openfgav1.Metadata{Relations: meta}}}}
+		b, _ := proto.Marshal(req)
+		wire := proto.Unmarshal(b, &openfgav1.WriteAuthorizationModelRequest{})
+		start := time.Now()
+		done := make(chan error, 1)
+		go func() { _, err := s.WriteAuthorizationModel(ctx, req); done <- err }()
+		select {
+		case err := <-done:
+			msg := fmt.Sprint(err)
+			if len(msg) > 110 {
+				msg = msg[:110]
+			}
+			fmt.Printf("computed chain %d ending in a union nested %d deep (%d bytes, wire decodable: %v): returned after %v: %s\n", n, d, len(b), wire == nil, time.Since(start).Round(time.Millisecond), msg)
+		case <-time.After(240 * time.Second):
+			fmt.Printf("computed chain %d, depth %d (%d bytes, wire decodable: %v): NOT returned after 240s\n", n, d, len(b), wire == nil)
+			return
+		}
 	}
 }
